@@ -45,7 +45,7 @@ func streamNames() {
 		}
 		var writes []string
 		var clock int64
-		flt := dfault{at: -1}
+		flt := dfault{at: -1, edge: -1}
 		l := lfs{m, &clock, &writes, &flt}
 		d := filesystem.NewFilesystemDatabase(l)
 		aliasOfCN := map[string]string{}
